@@ -38,6 +38,8 @@ class Hang(BaseException):
 
 
 def _alarm(signum, frame):
+    import hangbudget
+    hangbudget.note()
     raise Hang("no progress")
 
 
@@ -360,7 +362,8 @@ def run_one(sc):
 
     out = {"net": {"cfg": sc["spec"], "ev": ev}, "gens": [], "sinks": []}
     old = signal.signal(signal.SIGALRM, _alarm)
-    signal.setitimer(signal.ITIMER_REAL, float(sc.get("watchdog", 10)))
+    import hangbudget
+    signal.setitimer(signal.ITIMER_REAL, hangbudget.limit(sc.get("watchdog", 10)), 1.0)
     ok = False
     try:
         try:
